@@ -20,7 +20,7 @@
 (* (integer overflow, fuel exhausted): such cases are dropped, never used  *)
 (* as an oracle.                                                           *)
 (***************************************************************************)
-EXTENDS Integers, Sequences, TLC, Wide
+EXTENDS Integers, Sequences, FiniteSets, TLC, Wide
 
 (* ------------------------------------------------------------------ values *)
 VInt(n)   == [t |-> "int", v |-> n]
@@ -245,13 +245,25 @@ DestroyObj(S, r) ==
        vals == [i \in 1..Len(S2.heap[r].fs) |-> S2.heap[r].fs[i].v]
    IN DropAll(S2, vals)
 
-\* leaving a scope releases the references held by its variables (in declaration order - generators keep
-\* at most one destructor-bearing object per scope, the order among several is not documented)
+\* Leaving a scope releases the references held by its variables. The ORDER in which several objects of
+\* one scope die is not documented, so the reference brackets the output of a scope exit:
+\*   "<<scope"  { "<<obj" lines of one dying object ... }  ">>scope"
+\* and the comparison accepts any permutation of the "<<obj" chunks of one bracket.
+WillDie(S, v) == IsRef(v) /\ S.heap[v.r].alive /\ S.heap[v.r].rc = 1
+RECURSIVE DropMarked(_,_)
+DropMarked(S, vs) == IF vs = <<>> THEN S
+                     ELSE LET S1 == IF WillDie(S, vs[1]) /\ Ok(S) THEN [S EXCEPT !.out = Append(@, "<<obj")] ELSE S
+                          IN DropMarked(Dec(S1, vs[1]), Tail(vs))
 PopScope(S) ==
    LET f == Len(S.fr)  k == Len(Top(S).sc)
        vals == [i \in 1..Len(Top(S).sc[k]) |-> Top(S).sc[k][i].v]
        S1 == [S EXCEPT !.fr[f].sc = SubSeq(@, 1, k - 1)]
-   IN DropAll(S1, vals)
+       \* objects whose every remaining reference is held by this scope (aliases included)
+       refs == {vals[i].r : i \in {j \in 1..Len(vals) : IsRef(vals[j])}}
+       n  == Cardinality({r \in refs : S1.heap[r].alive /\ S1.heap[r].rc = Cardinality({i \in 1..Len(vals) : IsRef(vals[i]) /\ vals[i].r = r})})
+   IN IF n <= 1 THEN DropAll(S1, vals)
+      ELSE LET S2 == DropMarked([S1 EXCEPT !.out = Append(@, "<<scope")], vals)
+           IN [S2 EXCEPT !.out = Append(@, ">>scope")]
 RECURSIVE PopScopesTo(_,_)
 PopScopesTo(S, k) == IF Len(Top(S).sc) <= k THEN S ELSE PopScopesTo(PopScope(S), k)
 
@@ -294,12 +306,26 @@ ImplClass(S, c, m) ==
    ELSE IF \E i \in 1..Len(Class(S, c).methods) : SameSig(Class(S, c).methods[i], m) THEN c
    ELSE ImplClass(S, BaseOf(S, c), m)
 MethodIn(S, c, m) == LET ms == Class(S, c).methods IN ms[CHOOSE i \in 1..Len(ms) : SameSig(ms[i], m)]
-\* first class at or above c that has ANY applicable overload named name (methods are inherited)
-RECURSIVE ResolveIn(_,_,_,_)
-ResolveIn(S, c, name, as) ==
-   IF c = "" \/ ~HasClass(S, c) THEN [cls |-> "", idx |-> 0]
-   ELSE LET i == BestOverload(S, Class(S, c).methods, name, as, 1, 0, 0)
-        IN IF i > 0 THEN [cls |-> c, idx |-> i] ELSE ResolveIn(S, BaseOf(S, c), name, as)
+\* Overload resolution for a method call (static): every overload named `name` declared in c or inherited
+\* from its bases takes part (a more derived declaration hides a base declaration with the same parameter list);
+\* the applicable overload with the least total conversion cost is chosen.
+RECURSIVE Visible(_,_,_,_)
+Visible(S, c, name, seen) ==       \* Seq of [cls, idx], most derived first; seen = set of hidden parameter lists
+   IF c = "" \/ ~HasClass(S, c) THEN <<>>
+   ELSE LET ms == Class(S, c).methods
+            mine == SelectSeq([i \in 1..Len(ms) |-> [cls |-> c, idx |-> i]],
+                              LAMBDA x : ms[x.idx].name = name /\ ParamTypes(ms[x.idx]) \notin seen)
+            seen2 == seen \cup {ParamTypes(ms[i]) : i \in {j \in 1..Len(ms) : ms[j].name = name}}
+        IN mine \o Visible(S, BaseOf(S, c), name, seen2)
+RECURSIVE PickBest(_,_,_,_,_)
+PickBest(S, cands, as, best, bestCost) ==
+   IF cands = <<>> THEN best
+   ELSE LET x == cands[1]
+            m == Class(S, x.cls).methods[x.idx]
+            c == IF Len(m.params) = Len(as) THEN SumCost(S, ParamTypes(m), as) ELSE -1
+        IN IF c >= 0 /\ (best.idx = 0 \/ c < bestCost) THEN PickBest(S, Tail(cands), as, x, c)
+           ELSE PickBest(S, Tail(cands), as, best, bestCost)
+ResolveIn(S, c, name, as) == PickBest(S, Visible(S, c, name, {}), as, [cls |-> "", idx |-> 0], 0)
 
 (* ================================================================== static types of expressions *)
 DeclTypeOfLocal(S, name) ==
